@@ -47,9 +47,16 @@ type v2remote struct {
 
 	smu sync.Mutex // serialises senders (the send cipher is stateful)
 
-	mu   sync.Mutex
-	msgs []wmsg
-	err  error // why the reader stopped
+	mu      sync.Mutex
+	msgs    []wmsg
+	err     error // why the reader stopped
+	reading bool  // readLoop was entered
+}
+
+func (v *v2remote) started() bool {
+	v.mu.Lock()
+	defer v.mu.Unlock()
+	return v.reading
 }
 
 func newV2Remote(local, remote *Conn, clk *clock) *v2remote {
@@ -85,6 +92,9 @@ func (v *v2remote) send(m wire.Message) error {
 
 // readLoop decrypts and decodes everything the peer writes until the stream ends.
 func (v *v2remote) readLoop() {
+	v.mu.Lock()
+	v.reading = true
+	v.mu.Unlock()
 	for {
 		pt, err := v.tp.V2ReceivePacket(nil)
 		if err != nil {
